@@ -1334,7 +1334,13 @@ impl Arena {
         }
         Err(current) => {
           // we could not unlink the node: give it back, otherwise it stays marked as removed for ever.
-          next_node.store(next_node_val, Ordering::Release);
+          // Only if the word still carries our mark: the node's owner may have written it again.
+          let _ = next_node.compare_exchange(
+            removed_next,
+            next_node_val,
+            Ordering::Release,
+            Ordering::Relaxed,
+          );
 
           let (node_size, _) = decode_segment_node(current);
           if node_size == REMOVED_SEGMENT_NODE {
@@ -1461,7 +1467,13 @@ impl Arena {
         }
         Err(current) => {
           // we could not unlink the head: give it back, otherwise it stays marked as removed for ever.
-          head.store(head_node_size_and_next_node_offset, Ordering::Release);
+          // Only if the word still carries our mark: the node's owner may have written it again.
+          let _ = head.compare_exchange(
+            removed_head,
+            head_node_size_and_next_node_offset,
+            Ordering::Release,
+            Ordering::Relaxed,
+          );
 
           let (node_size, _) = decode_segment_node(current);
           if node_size == REMOVED_SEGMENT_NODE {
@@ -1547,7 +1559,13 @@ impl Arena {
         }
         Err(current) => {
           // we could not unlink the head: give it back, otherwise it stays marked as removed for ever.
-          head.store(head_node_size_and_next_node_offset, Ordering::Release);
+          // Only if the word still carries our mark: the node's owner may have written it again.
+          let _ = head.compare_exchange(
+            removed_head,
+            head_node_size_and_next_node_offset,
+            Ordering::Release,
+            Ordering::Relaxed,
+          );
 
           let (node_size, _) = decode_segment_node(current);
           if node_size == REMOVED_SEGMENT_NODE {
